@@ -134,6 +134,29 @@ def geo_facts():
              if isinstance(n, ast.AugAssign) and isinstance(n.target, ast.Name) and float_lit(n.value)}
     if len(fall) != 1:
         raise Unavailable(f"fallbacks {sorted(fall)}")
+    # the singular-value loop: for l in range(min(<cols>, len(<S>), k)) over the loop that reads <S>[l]
+    loops = [n for n in ast.walk(f) if isinstance(n, ast.For) and isinstance(n.target, ast.Name)
+             and any(isinstance(x, ast.Subscript) and isinstance(x.value, ast.Name) and x.value.id.startswith("sing")
+                     and is_name(x.slice, n.target.id) for x in ast.walk(n))]
+    lp = one(iter(loops), "singular-value loop")
+    it = lp.iter
+    if not (isinstance(it, ast.Call) and is_name(it.func, "range") and len(it.args) == 1 and not it.keywords):
+        raise Unavailable(f"singular-value loop range `{src(it)}`")
+    def bound(n):
+        if isinstance(n, ast.Call) and is_name(n.func, "min") and n.args and not n.keywords:
+            parts = [bound(a) for a in n.args]
+            out = parts[-1]
+            for q in reversed(parts[:-1]):
+                out = f"(Nat.min {q} {out})"
+            return out
+        if isinstance(n, ast.Name) and role.get(n.id) == "cols":
+            return "cols"
+        if is_name(n, "k"):
+            return "k"
+        if isinstance(n, ast.Call) and is_name(n.func, "len") and len(n.args) == 1 and isinstance(n.args[0], ast.Name) and n.args[0].id.startswith("sing"):
+            return "len"
+        raise Unavailable(f"singular-value loop bound `{src(n)}`")
+    svb = bound(it.args[0])
     # H_X += <cols> / <rows> * np.sum(<list>);  H_X += np.mean(<list>)
     aug = []
     for n in ast.walk(f):
@@ -166,7 +189,7 @@ def geo_facts():
     thr = thr.pop()
     fall = fall.pop()
     return {"lo": lo, "hi": hi, "ridx": ridx, "thr": [thr.numerator, thr.denominator], "fallback": [fall.numerator, fall.denominator],
-            "aug": aug, "mi": sorted(mi_terms), "mi_floor": _floor(fm, "mi", "mi return"),
+            "aug": aug, "svb": svb, "mi": sorted(mi_terms), "mi_floor": _floor(fm, "mi", "mi return"),
             "cmi": sorted(cmi_terms), "cmi_floor": _floor(fc, "cmi", "cmi return")}
 
 
@@ -200,6 +223,14 @@ Proof. intros k Hk. unfold src_lo, src_hi, src_ridx. lia. Qed.
 (* the guards are decided on squares in the model: thr^2 = thr24, the fallback is -12 *)
 Lemma src_guards_are_modelled : (src_thr * src_thr == thr24)%Q /\\ (src_fallback == -12 # 1)%Q.
 Proof. split; vm_compute; reflexivity. Qed.
+(* the singular values the ratio loop reads: of the list the SVD returned, the first min(cols, len, k) -- the model keeps the first k
+   in [loc_of] / [locs_of] and reads the first d of those in [sv_term] *)
+Definition src_sv_bound (cols len k : nat) : nat := {f['svb']}.
+Lemma src_sv_bound_is_modelled : forall cols k (sv : list Q), firstn (src_sv_bound cols (length sv) k) sv = firstn cols (firstn k sv).
+Proof.
+  intros cols k sv. unfold src_sv_bound. rewrite firstn_firstn.
+  destruct (Nat.le_gt_cases (length sv) (Nat.min cols k)) as [H|H]; [rewrite !firstn_all2 by lia; reflexivity|f_equal; lia].
+Qed.
 (* d/N times the SUM of the log radii, then the MEAN of the corrections (geo_expr_of) *)
 Lemma src_accumulation_is_modelled : src_aug = ["cols/rows*sum"; "mean"]%string.
 Proof. reflexivity. Qed.
